@@ -36,3 +36,20 @@ Example c12_example :
   listener_open true (events_of [OAdmit 1 (mkd DIn (KUni [97]) 1); OCancel 1; ORelease 1]) = true /\
   listener_open true (events_of [OAdmit 1 (mkd DIn (KUni [97]) 1); OAdmit 2 (mkd DOut (KUni [97]) 2)]) = false.
 Proof. vm_compute. repeat split; reflexivity. Qed.
+
+(** The watcher's table is read off the working tree on every run
+    (translator/watcher; per-run obligation c12_tree_watcher: exactly one
+    watchIOBEvents, no early return inside a case, and [table_is_watch] of the
+    actions found).  What [table_is_watch] means: for both settings of -one-shell
+    and both events the actions denoted by the table are those of [watch]. *)
+Theorem c12_table_is_watch : forall tbl one_shell e, table_is_watch tbl = true ->
+  wacts_eqb (watch_of_table tbl one_shell e) (map Some (watch one_shell e)) = true.
+Proof.
+  intros tbl one e H. unfold table_is_watch in H. cbn [forallb] in H.
+  repeat (apply andb_prop in H; destruct H as [? H]).
+  destruct one, e; repeat match goal with Hx : _ && _ = true |- _ => apply andb_prop in Hx; destruct Hx end; assumption.
+Qed.
+Example c12_watcher_table_example :
+  table_is_watch [("EventTypeConnected", "one", "Announce"); ("EventTypeConnected", "one", "CloseListener"); ("EventTypeDisconnected", "notone", "PrintHelp")]%string = true /\
+  table_is_watch [("any", "one", "Announce"); ("any", "one", "CloseListener"); ("any", "always", "PrintHelp")]%string = false.
+Proof. vm_compute. split; reflexivity. Qed.
